@@ -35,9 +35,9 @@ Extra(k) ==
     [] k = "Enum" -> <<JS("ZZ"), JS("HID"), JI(0), JB(TRUE), JO(<<"x">>, <<JI(1)>>), JS("GREEN")>>
     [] k = "Scalar" -> <<JI(5), JF("2.5"), JB(FALSE), JO(<<"x">>, <<JI(1)>>), JL(<<JS("q"), JNull>>)>>
 Menu(k) == <<JAbsent, JNull, Good(k)>> \o Extra(k)
-\* seeds that are also wrapped beyond depth 1 when DeepAll = FALSE: the null / right / wrong-kind String in both
+\* seeds that are also wrapped beyond depth 1 when DeepAll = FALSE: the null / right / wrong-kind (number) String in both
 \* nullabilities, the enum with an invalid / inaccessible value (rendered null by both walks), the Int fraction
-DeepSeed(k, n, m) == \/ k = "String" /\ m \in 1..4
+DeepSeed(k, n, m) == \/ k = "String" /\ m \in 2..4
                      \/ k = "Enum" /\ m \in 4..5
                      \/ k = "Int" /\ ~n /\ m = 4
 
